@@ -180,38 +180,43 @@ def r_getvar(model, rep):
         return T.contains(t, ok)
     tf = any(has_type_filter(t) for t in neg)
     af = any(has_arch_filter(t) for t in neg)
-    if not (tf and af and not pos):
-        # another spelling of the two filters (one positive condition, a filtered generator ...): decided on the truth table of
-        # the conditions the append is under, over "types given", "type in types", "arch given", "arch admitted"
-        def decider(a, b, c, d_):
-            def decide(t):
-                if t == ("param", "types"):
-                    return a
-                if t == ("param", "arch"):
-                    return c
-                if t[0] == "cmp" and t[1] == ("in",) and t[2][0] == ("attr", elem, "type") and T.contains(t[2][1], lambda y: y == ("param", "types")):
-                    return b
-                if t[0] == "cmp" and t[1] == ("in",) and t[2][0] == ("param", "arch") and T.contains(t[2][1], lambda y: y == ("attr", elem, "arches")) \
-                        and T.contains(t[2][1], lambda y: y == ("const", "src")):
-                    return d_
-                return None
-            return decide
-        table_ok = True
-        for a in (False, True):
-            for b in (False, True):
-                for c in (False, True):
-                    for d_ in (False, True):
-                        dec = decider(a, b, c, d_)
-                        vals = [T.truth(g[0], dec) for g in ap.guards if g[0][0] != "exc"]
-                        if any(v is None for v in vals):
-                            table_ok = False
-                            continue
-                        got = all(v is g[1] for v, g in zip(vals, [g for g in ap.guards if g[0][0] != "exc"]))
-                        table_ok = table_ok and got == ((not a or b) and (not c or d_))
-        if table_ok:
-            tf = af = True
-            pos = []
-            neg = []
+    # another spelling of the two filters (one positive condition, a filtered generator ...): decided on the truth table of
+    # the conditions the append is under, over "types given", "type in types", "arch given", "arch admitted"
+    def decider(a, b, c, d_):
+        def decide(t):
+            if t == ("param", "types"):
+                return a
+            if t == ("param", "arch"):
+                return c
+            if t[0] == "cmp" and t[1] == ("in",) and t[2][0] == ("attr", elem, "type") and T.contains(t[2][1], lambda y: y == ("param", "types")):
+                return b
+            if t[0] == "cmp" and t[1] == ("in",) and t[2][0] == ("param", "arch") and T.contains(t[2][1], lambda y: y == ("attr", elem, "arches")) \
+                    and T.contains(t[2][1], lambda y: y == ("const", "src")):
+                return d_
+            return None
+        return decide
+    table_ok = True
+    for a in (False, True):
+        for b in (False, True):
+            for c in (False, True):
+                for d_ in (False, True):
+                    dec = decider(a, b, c, d_)
+                    vals = [T.truth(g[0], dec) for g in ap.guards if g[0][0] != "exc"]
+                    if any(v is None for v in vals):
+                        table_ok = False
+                        continue
+                    got = all(v is g[1] for v, g in zip(vals, [g for g in ap.guards if g[0][0] != "exc"]))
+                    table_ok = table_ok and got == ((not a or b) and (not c or d_))
+    if table_ok:
+        tf = af = True
+        pos = []
+        neg = []
+    # a variant is listed exactly when it passes both filters: nothing else decides (a skip condition widened by another test
+    # drops variants the caller asked for)
+    rep.ob("R-GETVAR", "get_variants:filters-exact", table_ok, site=cx.site(ap.lineno),
+           msg="" if table_ok else "the conditions under which a variant is listed are not exactly 'no types given or its type is among "
+                                   "them' and 'no arch given or the arch is among its arches + src': %s" % [
+                                       ("" if g[1] else "not ") + T.show(g[0])[:160] for g in ap.guards if g[0][0] != "exc"])
     rep.ob("R-GETVAR", "get_variants:type-filter-before-append", tf and not pos, site=cx.site(ap.lineno),
            msg="" if tf and not pos else "the append is not dominated by the type filter (variant.type not in types -> skip)"
            if not tf else "append is additionally conditional: %s" % [T.show(g[0]) for g in pos])
